@@ -152,6 +152,9 @@ def nfa_worker(case):
             res['problems'].append(('nfa-dump-unreadable', "flex -T printed no readable NFA dump: %s" % errt[:200]))
             return res
         start, nodes = d
+        if len(nodes) > 300:
+            res['problems'].append(('inconclusive', "NFA of %d states not simulated" % len(nodes)))
+            return res
         ccls = class_table(prog)
         used = max([-n[0] for n in nodes if n[0] < 0] or [0])
         if used > len(ccls):
@@ -184,6 +187,10 @@ def nfa_worker(case):
             queries += ["(eccheck)", "(dfacheck %d)" % case.get('fuel', 60000)]
         rc, out, err = scanner.run_driver("(case %s\n%s\n(queries (%s)))\n" % (scanner.sx_program(prog), sx, " ".join(queries)),
                                           wd, timeout=120)
+        if rc == "timeout":
+            # (the simulation over bit sets of a few hundred NFA states times 256 bytes can outlast the time limit on a loaded machine)
+            res['problems'].append(('inconclusive', "driver timeout on an NFA of %d states" % len(nodes)))
+            return res
         if rc != 0:
             res['problems'].append(('driver-error', "rc=%s %s" % (rc, err[:300])))
             return res
@@ -287,6 +294,7 @@ def judge_nfa(ck, cases, results, stats):
     stats['nfa_checked'] = sum(r.get('nfa_checked', 0) for _, r in mine)
     stats['nfa_states_total'] = sum(r.get('nfa_states', 0) for _, r in mine if r.get('nfa_checked'))
     stats['nfa_pairs_checked'] = sum(r.get('nfa_pairs', 0) for _, r in mine)
+    stats['nfa_inconclusive'] = sum(1 for _, r in mine if any(p[0] == 'inconclusive' for p in r['problems']))
     stats['dfa_dumps_checked'] = sum(r.get('dfa_checked', 0) for _, r in mine)
     stats['ec_tables_checked'] = sum(r.get('ec_checked', 0) for _, r in mine)
     for c, r in mine:
